@@ -352,6 +352,7 @@ func (o *Out) read(r ociregistry.BlobReader, err error) {
 	o.Desc = liteDesc(r.Descriptor())
 	data, rerr := io.ReadAll(r)
 	r.Close()
+	r.Close() // (an explicit Close followed by a deferred one is an ordinary way to write it)
 	o.HasData = true
 	o.Data = data
 	o.DataLen = len(data)
